@@ -142,6 +142,17 @@ WITNESSES = [
      "main": "main.gdn",
      "expect": {"py": "('1' not in out.split()) and 'the public item was not reachable: ' + (out+err)[-200:] or ('2' in out.split() and 'a non-public item was reachable through the import') or ('not marked' not in (out+err) and 'no visibility error was reported: ' + (out+err)[-200:]) or ''"},
      "note": "ns::item reaches public items only"},
+    {"match": r"steps\.eval_namespace_access\.", "kind": "run-dir", "props": ["C34"],
+     "files": {"c.gdn": "public fun c_pub(): String { \"from c\" }\n", "b.gdn": "import \"./c.gdn\"\npublic fun b_pub(): String { c_pub() }\n",
+               "main.gdn": "import \"./b.gdn\" as b\nprintln(b::b_pub())\nprintln(\"sec\" ^ \"ond \" ^ b::c_pub())\n"},
+     "main": "main.gdn",
+     "expect": {"py": "('from c' not in out and 'the public item was not reachable: ' + (out+err)[-200:]) or ('second from c' in out and 'b::c_pub ran although b.gdn does not define c_pub, let alone mark it public') or ('not marked' not in (out+err) and 'no visibility error was reported: ' + (out+err)[-200:]) or ''"},
+     "note": "a name the imported file itself imported unqualified is not one of its public definitions"},
+    {"match": r"steps\.eval_namespace_access\.", "kind": "run-dir", "props": ["C34"],
+     "files": {"b.gdn": "public fun b_pub(): String { \"b\" }\n", "main.gdn": "import \"./b.gdn\" as b\nprintln(b::b_pub())\nb::println(\"thr\" ^ \"ough\")\n"},
+     "main": "main.gdn",
+     "expect": {"py": "('through' in out and 'b::println ran although b.gdn does not define println') or ('not marked' not in (out+err) and 'no visibility error was reported: ' + (out+err)[-200:]) or ''"},
+     "note": "a prelude function is not a public definition of the imported file"},
     {"match": r"steps\.eval_equality_binop\.", "kind": "run", "props": ["C13"],
      "input": "let a = Dict[\"a\" => Ok(1), \"b\" => Err(\"x\")]\nlet b = Dict[\"b\" => Err(\"x\"), \"a\" => Ok(1)]\nprintln(string_repr(a == b))\nprintln(string_repr(a != b))\nprintln(string_repr([a] == [b]))\nprintln(string_repr(([], 1) == ([], 1)))\nprintln(string_repr([1, 2] == [1, 2]))\nprintln(string_repr(Some([]) == Some([1])))\nprintln(string_repr(1 == 1.0))",
      "expect": {"stdout": "True\nFalse\nTrue\nTrue\nTrue\nFalse\nFalse"}, "note": "structurally equal containers built separately (different literal order, different recorded element types) are equal"},
